@@ -145,8 +145,23 @@ def Flow.supported (f : Flow) : List String := if f.methods.isEmpty then default
 /-- `Filter.IsAnyURLAccepted` -/
 def isAnyURL (url : String) : Bool := url == "" || url == "*" || url == ".*"
 
+/-- Lexicographic order on character lists (bytewise order of `sort.Strings` on ASCII). -/
+def leChars : List Char → List Char → Bool
+  | [], _ => true
+  | _ :: _, [] => false
+  | a :: as, b :: bs => if a.toNat < b.toNat then true else if b.toNat < a.toNat then false else leChars as bs
+
+def insertStr (a : String) : List String → List String
+  | [] => [a]
+  | b :: bs => if leChars a.toList b.toList then a :: b :: bs else b :: insertStr a bs
+
+/-- `sort.Strings` -/
+def sortStr : List String → List String
+  | [] => []
+  | a :: as => insertStr a (sortStr as)
+
 /-- `ToComparable` restricted to what the flows of this model carry: URL and the sorted method list. -/
-def Flow.key (f : Flow) : String × List String := (f.url, f.methods.mergeSort (fun a b => decide (a ≤ b)))
+def Flow.key (f : Flow) : String × List String := (f.url, sortStr f.methods)
 
 /-- One representative per key, in order of first... last occurrence (order is immaterial: map). -/
 def dedup {α : Type} [DecidableEq α] : List α → List α
